@@ -115,6 +115,8 @@ class Mirror:
         self.defs = {}
         self.opts = {"incremental": "true", "globaldecl": "false"}
         self.mode = "start"
+        self.fids = [0]
+        self.next_fid = 1
     def depth(self):
         return len(self.stack) - 1
     def entries(self):
@@ -146,11 +148,13 @@ class Mirror:
             if self.opts["incremental"] == "true":
                 for _ in range(cmd["n"]):
                     self.stack.append([])
+                    self.fids.append(self.next_fid); self.next_fid += 1
                 self.mode = "start"
         elif c == "pop":
             if cmd["n"] <= self.depth() and self.opts["incremental"] == "true":
                 d = self.depth() - cmd["n"]
                 self.stack = self.stack[:d + 1]
+                self.fids = self.fids[:d + 1]
                 self.names = {n: v for n, v in self.names.items() if v[1] <= d}
                 self.defs = {n: v for n, v in self.defs.items() if v[2] <= d}
                 self.mode = "start"
@@ -399,8 +403,10 @@ class Family:
         env2["OPENSMT_VERIF_TRACE"] = hpath
         res = run_opensmt(text, io=io, timeout=timeout, chunks=chunks, binary=binary, env=env2, extra_args=extra_args, cwd=cwd)
         dup = False
+        hook_gives = []
         try:
             xs = []
+            hook_gives = []      # ("give", frame id, term object) and ("check",) in order
             with open(hpath) as hf:
                 for line in hf:
                     if line.startswith('{"e":"insert"'):
@@ -408,6 +414,14 @@ class Family:
                             xs.append(json.loads(line)["x"])
                         except Exception:
                             pass
+                    elif line.startswith('{"e":"give"') and len(hook_gives) < 400:
+                        try:
+                            o = json.loads(line)
+                            hook_gives.append(("give", o["id"], o["root"]))
+                        except Exception:
+                            pass
+                    elif line.startswith('{"e":"check"'):
+                        hook_gives.append(("check",))
             # the same term (after the constructors' simplification) inserted twice in this run
             dup = len(set(xs)) != len(xs)
         except Exception:
@@ -420,7 +434,7 @@ class Family:
         if intl is None:
             intl = self.g.num == INT
         run = {"sid": sid, "cfg": cfg, "kind": kind, "io": io, "base": base or sid, "intl": bool(intl),
-               "cmds": cmds, "res": res, "text": text, "det": det, "wellformed": wellformed, "dup": dup}
+               "cmds": cmds, "res": res, "text": text, "det": det, "wellformed": wellformed, "dup": dup, "hook_gives": hook_gives}
         self.runs.append(run)
         return run
 
@@ -673,12 +687,122 @@ class Family:
                                 ev["hP"].append([])
             except SmtError as ex:
                 ev["pok"] = False; ev["why"] = str(ex)
-        elif c in ("echo", "get-info", "get-option", "get-proof", "exit", "set-info", "declare", "declare-sort",
+        elif c == "get-proof":
+            ev["r"] = "val"
+            ev.update({"nodes": [], "root": "", "hl": [], "prem": [], "pok": True, "mon": False})
+            try:
+                psig = sig_with_defs(sig, mir, tb)
+                given = []
+                nchecks = sum(1 for a in run.get("answers", []))
+                seen_checks = 0
+                for h in run.get("hook_gives", []):
+                    if h[0] == "check":
+                        seen_checks += 1
+                        if seen_checks >= nchecks:
+                            break
+                        continue
+                    _, fid, obj = h
+                    for nm, args, ret in obj["d"]:
+                        if nm not in psig.funs:
+                            psig.funs[nm] = (tuple(args), ret)     # auxiliary symbols of the preprocessing
+                    if fid in mir.fids:
+                        given.append(parse_term(read_all(obj["t"])[0], tb, psig, {}, BOOL))
+                nodes, root = parse_proof(seg, tb, psig)
+                ev["nodes"] = nodes; ev["root"] = root
+                act = given if given else mir.active()
+                ev["prem"] = list(dict.fromkeys(act))
+                afids = set(mir.fids)
+                ok = mir.mode == "unsat" and len(nodes) <= 60 and self._small(act) and self._defs_small(mir)
+                ev["mon"] = bool(mon and ok)
+                for n in nodes:
+                    h = []
+                    if ev["mon"] and n["kind"] == "leaf":
+                        lits = n["lits"]
+                        activation = len(lits) == 1 and lits[0]["fid"] >= 0 and not lits[0]["s"]
+                        popped_guard = any(x["fid"] >= 0 and x["s"] and x["fid"] not in afids for x in lits)
+                        if not activation and not popped_guard:
+                            eff = [x for x in lits if not (x["fid"] >= 0 and x["s"] and x["fid"] in afids)]
+                            neg = [x["nt"] if x["s"] else x["t"] for x in eff]
+                            if self._small(neg):
+                                h = self._hints_for(list(act) + neg, mir.defs)
+                    ev["hl"].append(h)
+                run["proofs"] = run.get("proofs", 0) + 1
+            except SmtError as ex:
+                ev["pok"] = False; ev["why"] = str(ex)
+        elif c in ("echo", "get-info", "get-option", "exit", "set-info", "declare", "declare-sort",
                    "set-logic", "set-option", "define", "assert", "push", "pop"):
             pass
 
     def _defs_small(self, mir):
         return self.tb.max_abs([b for _, b, _ in mir.defs.values()]) <= MAXNUM if mir.defs else True
+
+PROOF_LET = re.compile(r"^\(let \((cls_\d+) (.*)$")
+FRAME = re.compile(r"^\.frame(\d+)$")
+
+def parse_proof(text, tb, sig):
+    """-> (nodes, root name) in the shape spec/Proof.tla expects"""
+    sig = sig.copy()
+    lines = [l.rstrip() for l in text.split("\n") if l.strip()]
+    if not lines or not lines[0].startswith("(proof"):
+        raise SortError("proof does not start with (proof")
+    nodes = []
+    root = None
+    def lit(x):
+        neg = isinstance(x, list) and len(x) == 2 and is_sym(x[0], "not")
+        a = x[1] if neg else x
+        fid = -1
+        if is_sym(a):
+            m = FRAME.match(a.val)
+            if m:
+                fid = int(m.group(1))
+                sig.funs[a.val] = ((), BOOL)
+        t = parse_term(a, tb, sig, {}, BOOL)
+        if tb.sort(t) != BOOL:
+            raise SortError("proof literal is not Boolean")
+        return {"t": t, "nt": tb.app("not", [t]), "s": not neg, "fid": fid}
+    def atom(x):
+        if is_sym(x) and FRAME.match(x.val):
+            sig.funs[x.val] = ((), BOOL)
+        return parse_term(x, tb, sig, {}, BOOL)
+    def chain(x):
+        """(res (res A B p) C q) -> first, [(B,p),(C,q)]"""
+        if is_sym(x):
+            return x.val, []
+        if not (isinstance(x, list) and len(x) == 4 and is_sym(x[0], "res") and is_sym(x[2])):
+            raise SortError("bad resolution step " + sexpr_str(x)[:80])
+        first, steps = chain(x[1])
+        return first, steps + [{"c": x[2].val, "p": atom(x[3])}]
+    i = 1
+    while i < len(lines):
+        ln = lines[i]
+        m = PROOF_LET.match(ln)
+        if m:
+            name, rest = m.group(1), m.group(2)
+            if rest.startswith("(res "):
+                sx = read_all(rest[:-1] if rest.endswith("))") else rest)
+                first, steps = chain(sx[0])
+                nodes.append({"id": name, "kind": "res", "lits": [], "first": first, "steps": steps})
+            elif rest.startswith("(or ") and rest.endswith(" ))"):
+                sx = read_all("(" + rest[4:-3] + ")")
+                nodes.append({"id": name, "kind": "leaf", "lits": [lit(x) for x in sx[0]], "first": "", "steps": []})
+            elif rest.strip() == ")":
+                nodes.append({"id": name, "kind": "leaf", "lits": [], "first": "", "steps": []})
+            elif rest.endswith(" )"):
+                sx = read_all(rest[:-2])
+                if len(sx) != 1:
+                    raise SortError("bad unit clause")
+                nodes.append({"id": name, "kind": "leaf", "lits": [lit(sx[0])], "first": "", "steps": []})
+            else:
+                raise SortError("bad proof line " + ln[:80])
+            i += 1
+            continue
+        if re.match(r"^cls_\d+$", ln.strip()):
+            root = ln.strip()
+            break
+        raise SortError("bad proof line " + ln[:80])
+    if root is None:
+        raise SortError("proof has no final clause reference")
+    return nodes, root
 
 def Signature_with_sorts(sig):
     s = Signature()
